@@ -7,6 +7,7 @@
 -/
 import Msmart.Lemmas.CodecEq
 import Msmart.Crypto.ModeProps
+import Msmart.Model.Reassembly
 
 set_option linter.unusedSimpArgs false
 set_option linter.unusedVariables false
@@ -510,6 +511,74 @@ theorem packetDecode_eq (data : Bytes) : Codec.packetDecode data = packetDecode 
            · rw [if_neg hs, if_neg (by ne_neg hs), mapErr_decryptAes]
              simp only []
              cases decryptAes (List.drop 40 (List.take ((List.take (Py.fromLE ((data.drop 4).take 2)) data).length - 16) (List.take (Py.fromLE ((data.drop 4).take 2)) data))) <;> rfl)
+  | rfl
+
+
+/-! ### data_received: one iteration of the reassembly loop -/
+
+theorem findFrom_find2 (a c : UInt8) (b : Bytes) (i : Nat) :
+    Py.findFrom [a, c] b i = (match Py.find2 a c b with | some j => ((i + j : Nat) : Int) | none => -1) := by
+  induction b generalizing i with
+  | nil => simp [Py.findFrom, Py.find2]
+  | cons x xs ih =>
+    cases xs with
+    | nil => simp [Py.findFrom, Py.find2, List.isPrefixOf]
+    | cons y t =>
+      unfold Py.findFrom Py.find2
+      by_cases h : x = a ∧ y = c
+      · obtain ⟨rfl, rfl⟩ := h
+        simp [List.isPrefixOf]
+      · have h' : ([a, c] : Bytes).isPrefixOf (x :: y :: t) = false := by
+          simp only [List.isPrefixOf, Bool.and_true]
+          rcases Classical.not_and_iff_not_or_not.mp h with h1 | h1
+          · simp [beq_iff_eq, Ne.symm h1]
+          · simp [beq_iff_eq, Ne.symm h1]
+        rw [h', if_neg h]
+        simp only [Bool.false_eq_true, if_false]
+        rw [ih (i + 1)]
+        cases Py.find2 a c (y :: t) with
+        | none => rfl
+        | some j => simp only [Option.map]; congr 1; omega
+
+theorem findI_marker (b : Bytes) :
+    Py.findI b [131, 112] = (match findMarker b with | some j => (j : Int) | none => -1) := by
+  unfold Py.findI findMarker
+  rw [findFrom_find2]
+  cases Py.find2 131 112 b <;> simp
+
+theorem fromBE_2_4 (buf : Bytes) (h : 6 ≤ buf.length) :
+    Py.fromBE (Py.slice buf (some 2) (some 4)) = sizeField buf := by
+  match buf, h with
+  | a :: b :: c :: d :: e :: f :: rest, _ =>
+    have : Py.slice (a :: b :: c :: d :: e :: f :: rest) (some 2) (some 4) = [c, d] := by
+      have := slice_nat (a :: b :: c :: d :: e :: f :: rest) 2 4
+      simpa using this
+    rw [this]
+    simp [Py.fromBE, sizeField]
+
+/-- **tie.** the body of the `while` loop of `_LanProtocolV3.data_received` as translated = the model's `reasmStep`, for every buffer. -/
+theorem reasmStep_eq (buffer : Bytes) : Codec.reasmStep buffer = .ok (Model.reasmStep buffer) := by
+  first
+  | (
+       unfold Codec.reasmStep Model.reasmStep
+       rw [findI_marker]
+       cases hf : findMarker buffer with
+       | none => first | rfl | (simp; rfl)
+       | some start =>
+         simp only
+         have hne : ((-1 : Int) ≠ (start : Int)) := by omega
+         rw [if_pos (by ne_pos hne)]
+         rw [slice_drop]
+         unfold takePacket
+         by_cases h6 : (buffer.drop start).length < 6
+         · rw [if_pos (by simpa using (by omega : (((buffer.drop start).length : Nat) : Int) < 6)), if_pos h6]; rfl
+         · rw [if_neg (by simpa using (by omega : ¬ (((buffer.drop start).length : Nat) : Int) < 6)), if_neg h6]
+           rw [fromBE_2_4 _ (by omega)]
+           by_cases ht : (buffer.drop start).length < sizeField (buffer.drop start) + 8
+           · rw [if_pos (by simpa using (by omega : (((buffer.drop start).length : Nat) : Int) < ((sizeField (buffer.drop start) : Nat) : Int) + 8)), if_pos ht]; rfl
+           · rw [if_neg (by simpa using (by omega : ¬ (((buffer.drop start).length : Nat) : Int) < ((sizeField (buffer.drop start) : Nat) : Int) + 8)), if_neg ht]
+             have e : ((sizeField (buffer.drop start) : Nat) : Int) + 8 = ((sizeField (buffer.drop start) + 8 : Nat) : Int) := by omega
+             rw [e, slice_take, slice_drop]; rfl)
   | rfl
 
 
